@@ -607,8 +607,105 @@ fn chk_repl(defs: &[&str], expr: &str) -> Option<Value> {
     }
 }
 
+// ---- C10: ill-scoped programs are rejected with an error naming the culprit; the repaired twin compiles
+fn compile_only(src: &str) -> Result<(), String> {
+    use chialisp::classic::clvm_tools::clvmc::compile_clvm_text_maybe_opt;
+    use chialisp::compiler::compiler::DefaultCompilerOpts;
+    use chialisp::compiler::comptypes::CompilerOpts;
+    use std::collections::HashMap;
+    use std::rc::Rc;
+    let mut a = clvmr::Allocator::new();
+    let opts: Rc<dyn CompilerOpts> = Rc::new(DefaultCompilerOpts::new("*replay*"));
+    let mut syms = HashMap::new();
+    compile_clvm_text_maybe_opt(&mut a, false, opts, &mut syms, src, "*replay*", false).map(|_| ()).map_err(|e| format!("{:?}", e))
+}
+fn chk_scope(bad: &str, names: &str, good: &str) -> Option<Value> {
+    let (b, g, n) = (bad.to_string(), good.to_string(), names.to_string());
+    let res = catch_unwind(move || {
+        match compile_only(&b) {
+            Ok(()) => return Some(format!("ill-scoped program compiled")),
+            Err(e) => { if !n.split('|').any(|x| e.contains(x)) { return Some(format!("error does not name any of {:?}: {}", n, e)); } }
+        }
+        if let Err(e) = compile_only(&g) { return Some(format!("repaired twin does not compile: {}", e)); }
+        None
+    });
+    match res {
+        Ok(Some(o)) => Some(hit(json!({"ill_scoped": bad, "repaired": good}), format!("rejected with an error naming {}; repaired twin compiles", names), o, "compile_clvm_text_maybe_opt")),
+        Err(_) => Some(hit(json!({"ill_scoped": bad}), "error".into(), "panic".into(), "compiler panicked")),
+        _ => None,
+    }
+}
+
+// ---- C12: the debugger ends with the consensus result (or a failure exactly when consensus fails); rows are consecutive
+fn chk_cldb(prog_bytes: &[u8], envsel: u8) -> Option<Value> {
+    use chialisp::classic::clvm_tools::stages::stage_0::{DefaultProgramRunner, TRunProgram};
+    use chialisp::compiler::cldb::{CldbNoOverride, CldbRun, CldbRunEnv};
+    use chialisp::compiler::clvm::{convert_from_clvm_rs, start_step};
+    use chialisp::compiler::prims::prim_map;
+    use chialisp::compiler::srcloc::Srcloc;
+    use std::collections::HashMap;
+    use std::rc::Rc;
+    let prog = prog_bytes.to_vec();
+    let res = catch_unwind(move || {
+        let mut a = clvmr::Allocator::new();
+        let p = match clvmr::serde::node_from_bytes(&mut a, &prog) { Ok(p) => p, Err(_) => return None };
+        let mut tag = 0u8;
+        let env = match envsel { 0 => build_tree(&mut a, 4, &mut tag), 1 => comb(&mut a, 20, true), _ => a.nil() };
+        let runner = Rc::new(DefaultProgramRunner::new());
+        let cons = runner.run_program(&mut a, p, env, None).ok().and_then(|r| clvmr::serde::node_to_bytes(&a, r.1).ok());
+        let loc = Srcloc::start("*replay*");
+        let sp = convert_from_clvm_rs(&mut a, loc.clone(), p).ok()?;
+        let se = convert_from_clvm_rs(&mut a, loc, env).ok()?;
+        let cenv = CldbRunEnv::new(None, Rc::new(vec![]), Box::new(CldbNoOverride::new_symbols(HashMap::new())));
+        let mut run = CldbRun::new(runner, prim_map(), Box::new(cenv), start_step(sp, se));
+        let mut rows: Vec<i64> = vec![];
+        let mut failure = false;
+        let mut steps = 0;
+        while !run.is_ended() && steps < 200000 {
+            steps += 1;
+            if let Some(out) = run.step(&mut a) {
+                if let Some(r) = out.get("Row") { rows.push(r.parse().unwrap_or(-1)); }
+                if out.contains_key("Failure") { failure = true; }
+            }
+        }
+        let fin = run.final_result().and_then(|v| chialisp::compiler::clvm::convert_to_clvm_rs(&mut a, v).ok()).and_then(|n| clvmr::serde::node_to_bytes(&a, n).ok());
+        Some((cons, fin, failure, rows, run.is_ended()))
+    });
+    match res {
+        Ok(Some((cons, fin, failure, rows, ended))) => {
+            let consecutive = rows.iter().enumerate().all(|(i, r)| *r == rows[0] + i as i64);
+            let agree = match (&cons, &fin) { (Some(c), Some(f)) => c == f && !failure, (None, _) => failure || fin.is_none(), (Some(_), None) => false };
+            if !ended || !agree || !consecutive {
+                Some(hit(json!({"program": prog_bytes, "env": envsel}), format!("consensus result {:?}; rows consecutive", cons), format!("debugger final {:?} failure={} ended={} rows={:?}", fin, failure, ended, &rows[..rows.len().min(12)]), "CldbRun::step to the end vs clvmr run_program"))
+            } else { None }
+        }
+        Err(_) => Some(hit(json!({"program": prog_bytes}), "no panic".into(), "panic".into(), "debugger panicked")),
+        _ => None,
+    }
+}
+
 pub fn search(name: &str, seed: u64) -> Value {
     match name {
+        "cldb" => {
+            let mut progs = stepper_programs();
+            for hex in ["ff10ffff0105ffff010b80", "ff02ffff01ff10ff02ffff010180ffff04ffff0107ff808080", "ff03ffff0101ffff0102ffff010380", "ff08ffff010580", "ff0bffff0183666f6f80", "ff12ffff0103ffff10ffff0102ffff01038080"] { progs.push(hexv(hex)); }
+            for p in progs.iter() { for e in 0..3u8 { if let Some(v) = chk_cldb(p, e) { return v; } } }
+            nf("debugger runs to the consensus result (or fails exactly when consensus fails) with consecutive rows on the enumerated programs x 3 environments")
+        }
+        "scoping" => {
+            let cases: Vec<(&str, &str, &str)> = vec![
+                ("(mod (X) (include *standard-cl-23*) (+ X undefined_thing))", "undefined_thing", "(mod (X) (include *standard-cl-23*) (+ X 1))"),
+                ("(mod (X) (include *standard-cl-23*) (defun f (A) (+ A missing_name)) (f X))", "missing_name", "(mod (X) (include *standard-cl-23*) (defun f (A) (+ A 1)) (f X))"),
+                ("(mod (X) (include *standard-cl-21*) (defun f (A) (+ A 1)) (defun f (A) (+ A 2)) (f X))", "f", "(mod (X) (include *standard-cl-21*) (defun f (A) (+ A 1)) (defun g (A) (+ A 2)) (f X))"),
+                ("(mod (X) (include *standard-cl-21*) (defun-inline f (A) (+ A 1)) (defun f (A) (+ A 2)) (f X))", "f", "(mod (X) (include *standard-cl-21*) (defun-inline f (A) (+ A 1)) (defun g (A) (+ A 2)) (f X))"),
+                ("(mod (X) (include *standard-cl-21*) (defun-inline f (A) (f (- A 1))) (f X))", "f|recurs", "(mod (X) (include *standard-cl-21*) (defun f (A) (if A (f (- A 1)) 0)) (f X))"),
+                ("(mod (X) (include *standard-cl-21*) (defun-inline f (A) (g (- A 1))) (defun-inline g (A) (f (+ A 2))) (f X))", "f|g|recurs", "(mod (X) (include *standard-cl-21*) (defun-inline f (A) (g (- A 1))) (defun g (A) (if A (f (+ A 2)) 0)) (f X))"),
+                ("(mod (X) (include *standard-cl-21*) (assign v1 (+ v2 1) v2 (+ v1 1) (* v1 v2)))", "v1|v2|deadlock|ircular", "(mod (X) (include *standard-cl-21*) (assign v1 (+ X 1) v2 (+ v1 1) (* v1 v2)))"),
+                ("(mod (X) (include *standard-cl-21*) (assign v1 (+ X 1) v1 (+ X 2) (* v1 v1)))", "v1|uplicate|multiple", "(mod (X) (include *standard-cl-21*) (assign v1 (+ X 1) v2 (+ X 2) (* v1 v2)))"),
+            ];
+            for (bad, names, good) in cases.iter() { if let Some(v) = chk_scope(bad, names, good) { return v; } }
+            nf("8 ill-scoped programs (unbound name in main / in defun under a strict dialect, duplicate defun, inline+defun of one name, direct and mutual inline recursion, cyclic assign, duplicate assign binding) are rejected with an error naming the culprit, and each repaired twin compiles")
+        }
         "repl" => {
             let cases: Vec<(Vec<&str>, &str)> = vec![
                 (vec![], "(+ 1 2)"),
